@@ -148,21 +148,28 @@ inductive SiftEnd where
   | outOfFuel                                 -- model artefact: the outer loop has no termination proof
   deriving DecidableEq
 
-/-- The `while continue_sift` loop; state = (columns so far, running residual `proto_imf`).
-    `X layer proto` is the single-IMF extraction (`none` = it raised). -/
-def siftLoop (X : Nat → Sig → Option (Sig × Bool)) (thr : Rat) (cap : Option Nat) (x : Sig) :
+/-- The `while continue_sift` loop shared by `sift` and `mask_sift`; state = (columns so far,
+    running residual `proto_imf`).  `X cols proto` is the single-IMF extraction of the layer
+    (`none` = it raised); it may depend on the columns extracted so far (mask amplitude / frequency
+    of the layer), the classic sift only uses their number. -/
+def peelLoop (X : List Sig → Sig → Option (Sig × Bool)) (thr : Rat) (cap : Option Nat) (x : Sig) :
     Nat → List Sig → Sig → List Sig × SiftEnd
   | 0, cols, _ => (cols, .outOfFuel)
   | fuel + 1, cols, proto =>
-    match X cols.length proto with
+    match X cols proto with
     | none => (cols, .raised)
     | some (c, cont) =>
       let cols' := cols ++ [c]                                    -- imf = concatenate((imf, next_imf))
       let proto' := Sig.sub x (Sig.vsum x.length cols')           -- proto_imf = X - imf.sum(axis=1)
       let capHit := cap == some cols'.length                      -- layer == max_imfs
       let thrHit := decide (Sig.absSum c < thr)                   -- abs(next_imf).sum() < sift_thresh
-      if cont && !capHit && !thrHit then siftLoop X thr cap x fuel cols' proto'
+      if cont && !capHit && !thrHit then peelLoop X thr cap x fuel cols' proto'
       else (cols', .done (!cont) capHit thrHit)
+
+/-- classic sift: the extraction of layer k is `X k` -/
+def siftLoop (X : Nat → Sig → Option (Sig × Bool)) (thr : Rat) (cap : Option Nat) (x : Sig) :
+    Nat → List Sig → Sig → List Sig × SiftEnd :=
+  peelLoop (fun cols p => X cols.length p) thr cap x
 
 def siftIx (X : Nat → Sig → Option (Sig × Bool)) (thr : Rat) (cap : Option Nat) (x : Sig) (fuel : Nat) :
     List Sig × SiftEnd :=
@@ -180,6 +187,75 @@ def extractorIx (E : Nat → Sig → Env) (D : Sig → Sig → Rat) (o : ImfOpts
 
 def extractor (E : Sig → Env) (D : Sig → Sig → Rat) (o : ImfOpts) : Sig → Option (Sig × Bool) :=
   extractorIx (fun _ => E) D o
+
+/-! ## counter / cap logic of the other sift variants (C03) -/
+
+/-- mask_sift: `if len(mask_freqs) < max_imfs: max_imfs = len(mask_freqs)` (user supplied frequencies) -/
+def effCap (cap : Nat) (nfreqs : Option Nat) : Nat :=
+  match nfreqs with
+  | some m => if m < cap then m else cap
+  | none => cap
+
+/-- mask_sift: the same peeling loop (`imf_layer == max_imfs-1` before the increment is
+    `layer == max_imfs` after it); `M cols proto` = get_next_imf_mask with the layer's mask -/
+def maskSift (M : List Sig → Sig → Option (Sig × Bool)) (thr : Rat) (cap : Nat) (nfreqs : Option Nat)
+    (x : Sig) (fuel : Nat) : List Sig × SiftEnd :=
+  peelLoop M thr (some (effCap cap nfreqs)) x fuel [] x
+
+def colOr (n : Nat) (m : List Sig) (j : Nat) : Sig := (m[j]?).getD (Sig.zeros n)
+
+/-- mean over the members, column by column -/
+def meanOf (n : Nat) (vs : List Sig) : Sig := Sig.smul (1 / (vs.length : Rat)) (Sig.vsum n vs)
+
+def maxWidth (members : List (List Sig)) : Nat := members.foldl (fun w m => if w < m.length then m.length else w) 0
+
+/-- ensemble_sift averaging: as many columns as the widest member; a member contributes zeros beyond
+    its own last component -/
+def ensembleCols (n : Nat) (members : List (List Sig)) : List Sig :=
+  (List.range (maxWidth members)).map fun j => meanOf n (members.map fun m => colOr n m j)
+
+/-- ensemble_sift: every member is a capped classic sift of the input plus its noise -/
+def ensembleSift (X : Nat → Sig → Option (Sig × Bool)) (thr : Rat) (cap : Option Nat) (x : Sig) (fuel : Nat)
+    (noises : List Sig) : List Sig :=
+  ensembleCols x.length (noises.map fun nz => (siftIx X thr cap (Sig.add x nz) fuel).1)
+
+inductive CeemdEnd where
+  | done (pkStop capStop thrStop : Bool)
+  | outOfFuel
+  deriving DecidableEq
+
+/-- complete_ensemble_sift main loop: `Nx cols proto` = ensemble mean of the first IMFs of
+    proto ± noise_k (abstract); `layer` counts the components computed so far. -/
+def ceemdLoop (Nx : List Sig → Sig → Sig) (thr : Rat) (cap : Option Nat) (x : Sig) :
+    Nat → List Sig → List Sig × CeemdEnd
+  | 0, cols => (cols, .outOfFuel)
+  | fuel + 1, cols =>
+    let proto := Sig.sub x (Sig.vsum x.length cols)
+    let c := Nx cols proto
+    let cols' := cols ++ [c]
+    let pkStop := decide (peaks c < 2)                                       -- len(pks) < 2
+    let capStop := cap == some cols'.length                                  -- layer == max_imfs
+    let thrStop := decide (Sig.absSum c < thr * (c.length : Rat))            -- abs(next_imf).mean() < sift_thresh
+    if pkStop || capStop || thrStop then (cols', .done pkStop capStop thrStop)
+    else ceemdLoop Nx thr cap x fuel cols'
+
+/-- complete_ensemble_sift: the first component comes from a plain ensemble step; the loop is entered
+    unless the cap is already reached -/
+def ceemd (Nx : List Sig → Sig → Sig) (thr : Rat) (cap : Option Nat) (x : Sig) (fuel : Nat) :
+    List Sig × CeemdEnd :=
+  let c0 := Nx [] x
+  match cap with
+  | some k => if k ≤ 1 then ([c0], .done false true false) else ceemdLoop Nx thr cap x fuel [c0]
+  | none => ceemdLoop Nx thr cap x fuel [c0]
+
+/-- pad / keep the first `k` columns: `imf2[:, ii, :tmp.shape[1]] = tmp` into zeros of width `k` -/
+def padCols (n k : Nat) (cols : List Sig) : List Sig := (List.range k).map fun j => colOr n cols j
+
+/-- sift_second_layer: one capped sift per first-layer column, stored in a [n × first × k] array,
+    k = max_imfs of sift_args, default: number of first-layer columns -/
+def secondLayer (S : Nat → Sig → List Sig) (n : Nat) (ia : List Sig) (cap : Option Nat) : List (List Sig) :=
+  let k := cap.getD ia.length
+  ia.map fun col => padCols n k (S k col)
 
 /-! ## driver ops -/
 
@@ -346,9 +422,9 @@ def siftRows (n : Nat) (flags : List Rat) (slots : List (Option (List Rat))) : O
 def residuals (x : Sig) (cols : List Sig) : List Sig :=
   (List.range cols.length).map fun k => if k = 0 then x else Sig.sub x (Sig.vsum x.length (cols.take k))
 
-def handleSift (o : Op) : String := Id.run do
+def handleSift (mask : Bool) (o : Op) : String := Id.run do
   let some thr := o.rat? "thr" | return "bad-op"
-  let some cap := parseOptNat o "cap" | return "bad-op"
+  let some cap0 := parseOptNat o "cap" | return "bad-op"
   let some tol := o.rat? "tol" | return "bad-op"
   let some x := o.vec? 0 | return "bad-op"
   let some flags := o.vec? 1 | return "bad-op"
@@ -357,7 +433,16 @@ def handleSift (o : Op) : String := Id.run do
     match tbl[k]? with
     | some r => r.c.map fun c => (c, r.flag)
     | none => none
-  let (cols, e) := siftIx X thr cap x tbl.length
+  -- mask_sift: integer cap required, lowered to the number of user supplied frequencies
+  let mut res : List Sig × SiftEnd := ([], .outOfFuel)
+  if mask then
+    let some nf := parseOptNat o "nfreqs" | return "bad-op"
+    let some c := cap0 | return "bad-op"
+    if effCap c nf = 0 then return "bad-op"
+    res := maskSift (fun cols p => X cols.length p) thr c nf x tbl.length
+  else
+    res := siftIx X thr cap0 x tbl.length
+  let (cols, e) := res
   -- the table rows must have been produced on the residuals the model computes itself
   let nvisit := match e with | .raised => cols.length + 1 | _ => cols.length
   let mut j := 0
@@ -372,12 +457,59 @@ def handleSift (o : Op) : String := Id.run do
   | .done f c t =>
     return s!"ok ncols={cols.length} exit=done flag={fmtBool f} cap={fmtBool c} thr={fmtBool t} margin={fmtRat margin} | {fmtVec resid}"
 
+/-- ENS-SHAPE: column count of the ensemble mean from the members' widths -/
+def handleEns (o : Op) : String := Id.run do
+  let some n := o.nat? "n" | return "bad-op"
+  let some ws := (o.vec? 0) >>= toNats? | return "bad-op"
+  if ws.isEmpty then return "bad-op"
+  let members := ws.map fun w => List.replicate w (Sig.zeros n)
+  let out := ensembleCols n members
+  return s!"ok ncols={out.length} rows={if out.all (·.length == n) then n else 0}"
+
+/-- CEEMD-SHAPE: replay of the counter logic on the stop causes observed per loop column -/
+def handleCeemd (o : Op) : String := Id.run do
+  let some cap := parseOptNat o "cap" | return "bad-op"
+  let some pk := (o.vec? 0) >>= toBools? | return "bad-op"
+  let some th := (o.vec? 1) >>= toBools? | return "bad-op"
+  if pk.length ≠ th.length then return "bad-op"
+  let synth (p t : Bool) : Sig :=
+    match p, t with
+    | true, true => [0, 0, 0, 0, 0]          -- < 2 maxima, mean abs below threshold 1
+    | true, false => [10, 10, 10, 10, 10]
+    | false, true => [0, 1, 0, 1, 0]         -- 2 maxima, mean abs 2/5 < 1
+    | false, false => [0, 10, 0, 10, 0]
+  let Nx : List Sig → Sig → Sig := fun cols _ =>
+    if cols.length = 0 then [0, 10, 0, 10, 0]
+    else synth ((pk[cols.length - 1]?).getD false) ((th[cols.length - 1]?).getD false)
+  let (cols, e) := ceemd Nx 1 cap [0, 0, 0, 0, 0] pk.length
+  match e with
+  | .outOfFuel => return s!"ok ncols={cols.length} exit=fuel"
+  | .done a b c => return s!"ok ncols={cols.length} exit=done pk={fmtBool a} cap={fmtBool b} thr={fmtBool c}"
+
+/-- L2-SHAPE: shape and zero padding of the second-layer array from the widths of the inner sifts -/
+def handleL2 (o : Op) : String := Id.run do
+  let some cap := parseOptNat o "cap" | return "bad-op"
+  let some ws := (o.vec? 0) >>= toNats? | return "bad-op"
+  let ia : List Sig := (List.range ws.length).map fun (i : Nat) => [((i : Nat) : Rat)]
+  let S : Nat → Sig → List Sig := fun k col =>
+    let i := match col with | [v] => v.num.toNat | _ => 0
+    (List.replicate ((ws[i]?).getD 0) [1]).take k
+  let out := secondLayer S 1 ia cap
+  let d2 := match out with | b :: _ => b.length | [] => cap.getD ia.length
+  let uniform := out.all (·.length == d2)
+  let filled := out.map fun b => (b.filter (· != [0])).length
+  return s!"ok d1={out.length} d2={d2} uniform={fmtBool uniform} | {fmtNats filled}"
+
 def handle (o : Op) : Option String :=
   match o.name with
   | "GNI" => some (handleGni o)
   | "STOP" => some (handleStop o)
   | "PEAKS" => some (handlePeaks o)
-  | "SIFT" => some (handleSift o)
+  | "SIFT" => some (handleSift false o)
+  | "MASKSIFT" => some (handleSift true o)
+  | "ENS-SHAPE" => some (handleEns o)
+  | "CEEMD-SHAPE" => some (handleCeemd o)
+  | "L2-SHAPE" => some (handleL2 o)
   | _ => none
 
 end Sift
